@@ -6,8 +6,10 @@ EXTENDS Naturals, Sequences, FiniteSets, TLC, Json, IOUtils, TLCExt
 
 VARIABLES rec, mode
 MaxF == IF "VERIF_FIELDS_LEN" \in DOMAIN IOEnv THEN atoi(IOEnv.VERIF_FIELDS_LEN) ELSE 2
-Keys == {"name", "comm", "target", "info", "peer", "profile"}
-Classes == {"plain", "space", "eq", "hash", "comma", "utf8", "hexlike", "kvinside", "hexenc", "oddq"}
+Keys == {"name", "comm", "target", "info", "peer", "profile", "srcname"}
+\* genpath: a value the path generalisation would rewrite (home, run/user/<uid>, hex and number runs): it may only
+\* be rewritten in the fields the generalisation is documented for
+Classes == {"plain", "space", "eq", "hash", "comma", "utf8", "hexlike", "kvinside", "hexenc", "oddq", "genpath"}
 OKField(k, c) == c \in {"hexenc", "oddq"} => k \in {"name", "comm", "profile"}     \* what the kernel hex-encodes
 Fields == {f \in [k : Keys, c : Classes] : OKField(f.k, f.c)}
 
@@ -31,17 +33,25 @@ ExtendS == /\ mode = "sighist" /\ Len(rec) < MaxH
            /\ \E a \in {"send", "receive"}, sg \in {"hup", "term", "int"} : rec' = Append(rec, [acc |-> a, sig |-> sg])
            /\ UNCHANGED mode
 
-Init == rec = <<>> /\ mode \in {"fields", "rules", "hist", "sighist"}
+\* access histories of the other kinds: records of one profile on one object that differ in what was asked for;
+\* every access asked for must come out, whatever the earlier records merged into
+AccKinds == {"unix", "ptrace", "mqueue", "io_uring", "dbus"}
+ExtendA == /\ mode = "acchist" /\ Len(rec) < MaxH
+           /\ \E k \in AccKinds, a \in 1..3 : (IF rec = <<>> THEN TRUE ELSE rec[1].kind = k) /\ rec' = Append(rec, [kind |-> k, a |-> a])
+           /\ UNCHANGED mode
+
+Init == rec = <<>> /\ mode \in {"fields", "rules", "hist", "sighist", "acchist"}
 ExtendF == /\ mode = "fields" /\ Len(rec) < MaxF
            /\ \E f \in Fields : (\A i \in DOMAIN rec : rec[i].k # f.k) /\ rec' = Append(rec, f)
            /\ UNCHANGED mode
 PickR == /\ mode = "rules" /\ rec = <<>>
-         /\ \E c \in RClass, m \in Masks, v \in Verdicts, own \in BOOLEAN, n \in 1..27 :
+         /\ \E c \in RClass, m \in Masks, v \in Verdicts, own \in BOOLEAN, n \in 1..28 :
                rec' = <<[cls |-> c, mask |-> m, verdict |-> v, own |-> own, nameclass |-> n]>>
          /\ mode' = "ruledone"
-Spec == Init /\ [][ExtendF \/ PickR \/ ExtendH \/ ExtendS]_<<rec, mode>>
+Spec == Init /\ [][ExtendF \/ PickR \/ ExtendH \/ ExtendS \/ ExtendA]_<<rec, mode>>
 Emit == /\ (mode = "fields" /\ rec # <<>> => PrintT("BEHF " \o ToJson(rec)))
         /\ (mode = "ruledone" => PrintT("BEHR " \o ToJson(rec[1])))
         /\ (mode = "hist" /\ Len(rec) >= 2 => PrintT("BEHH " \o ToJson(rec)))
         /\ (mode = "sighist" /\ Len(rec) >= 2 => PrintT("BEHS " \o ToJson(rec)))
+        /\ (mode = "acchist" /\ Len(rec) >= 2 => PrintT("BEHA " \o ToJson(rec)))
 =============================================================================
